@@ -208,10 +208,13 @@ func (interp *Interpreter) cfg(root *node, sc *scope, importPath, pkgName string
 						sc.add(sc.getType("int")) // Add a dummy type to store array shallow copy for range
 						ktyp = sc.getType("int")
 						vtyp = o.typ.val
-					case intT:
+					}
+
+					if ktyp == nil && isInt(o.typ.TypeOf()) {
+						// Range over an integer: the key has the type of the operand.
 						n.anc.gen = rangeInt
 						sc.add(sc.getType("int"))
-						ktyp = sc.getType("int")
+						ktyp = o.typ.defaultType(o.rval, sc)
 					}
 
 					switch {
